@@ -174,9 +174,10 @@ def _admission(ctx):
             if not site:
                 continue
             resolved = K.value_at(func, fgraph, site[0], val)
-            if isinstance(resolved, ast.Attribute) and \
-                    resolved.attr == 'placement_expiry':
-                continue            # saved value put back
+            rtext = N.txt(resolved)
+            if not (isinstance(resolved, ast.BinOp) or 'time.' in rtext or
+                    '.lease' in rtext or isinstance(resolved, ast.Call)):
+                continue            # a saved / recorded value put back
             grants += 1
             try:
                 lin = N.linear(resolved)
